@@ -28,6 +28,26 @@ CHECKS = {
         note="Trusted: as C01. Known finding F-C04-subtree-selection in known_findings.json.",
         design="4/C04",
     ),
+    "C08": dict(
+        engine="E1 EnumRNG explorer + E2 state space",
+        category="model_checking",
+        technique="exhaustive enumeration of every parent tree x placement and of every execution of sample()/SMC/conditional SMC paths under EnumRNG, against an oracle list of placements and the target/proposal identity",
+        text="For every kernel x outlier proposal x permutation distribution x parent tree over <=3 (4) data points: the oracle's complete list "
+             "of placements is scored (sum of reported probabilities = 1, all positive) and ALL executions of sample() reproduce exp(log_p) "
+             "exactly; for every data order ALL placement paths of SMCSampler and ConditionalSMCSampler (every compatible retained tree) are "
+             "enumerated and weight ratios must equal target/proposal ratios including generation 1; reachable final trees = compatible trees.",
+        note="Weights are judged up to the per-generation normalisation the swarm applies (ratios between particles of one swarm). Data from a generic alphabet.",
+        design="4/C08",
+    ),
+    "C09": dict(
+        engine="E1 EnumRNG explorer + E2 state space",
+        category="model_checking",
+        technique="exhaustive enumeration of every shuffle outcome of RootPermutationDistribution.sample on every tree over n<=4 (5) data points vs brute-force filter of all n! orders",
+        text="Exact distribution over data orders for all 427 trees over <=4 data points incl. every outlier subset (n=5 thorough), three "
+             "sibling/label variants: support = brute-force compatible orders, every order has probability 1/count to 1e-12, log_pdf = -log(count).",
+        note="Trusted: the brute-force linear-extension filter in mc/oracle.py.",
+        design="4/C09",
+    ),
 }
 
 NOT_YET = {}
